@@ -99,3 +99,16 @@ Definition bd_lines (l : list String.string) : bytes := concat (map (fun s => bd
 (* payload bytes of hook h over a list of per-call event lists (oldest first), in order of delivery *)
 Definition bd_log_delivered (h : nat) (log : list (list event)) : bytes :=
   concat (map bd_ev_bytes (filter (fun e => Nat.eqb (ev_hook e) h) (concat log))).
+(* executable forms of the response-side starting invariant (Proof/PBodyRes.v: bd_rs_inv, bd_rs_clean) *)
+Definition bd_rs_invb (o : nat) (c : connp) : bool :=
+  match c_out_tx c with Some j => Nat.eqb j o | None => false end &&
+  match tx_slot c o with Some t => Nat.eqb (t_hook_response_body t) 0 && (t_res_cep t =? c_HTP_COMPRESSION_NONE) | None => false end &&
+  match k_receiver_hook (c_out c) with None => true | Some _ => false end &&
+  match k_header (c_out c) with None => true | Some _ => false end &&
+  negb (c_out_status c =? c_HTP_STREAM_TUNNEL) && negb (c_out_status c =? c_HTP_STREAM_CLOSED) &&
+  match k_data (c_out c) with
+  | Some d => Nat.eqb (k_len (c_out c)) (length d) && Nat.leb (k_read (c_out c)) (length d)
+  | None => false
+  end.
+Definition bd_rs_cleanb (c : connp) : bool :=
+  Nat.eqb (k_consume (c_out c)) (k_read (c_out c)) && match k_buf (c_out c) with None | Some [] => true | Some _ => false end.
